@@ -356,6 +356,21 @@ func c19(r *Report) {
 					guarded = true
 				}
 			}
+			// the bound rejects nothing a Stream can emit: a data frame carries one Read of the
+			// logged body, which is as large as the consumer's buffer (io.ReadAll grows to
+			// megabytes); 64 KiB, 1 MiB and 1<<31-1 must all pass every guard before the read
+			if len(lens) == 1 {
+				isThisLen := func(v ssa.Value) bool { return unwrapConv(v) == lens[0] }
+				tooTight := false
+				for _, ce := range ctrlEdges(mk.Block()) {
+					for _, sz := range []int64{1 << 16, 1 << 20, 1<<31 - 1} {
+						if rel, adm := constCmpAdmits(ce, isThisLen, sz); rel && !adm {
+							tooTight = true
+						}
+					}
+				}
+				r.Decide("path", fmt.Sprintf("(*M/marbl.Reader).ReadFrame: the bound on allocation #%d admits every frame the writer can emit", n), !tooTight, "lengths up to 1<<31-1 pass the guard", "the reader refuses payload lengths (64 KiB, 1 MiB or 1<<31-1) that a Stream emits for a large Read of the logged body: such a stream no longer decodes", mk.Pos())
+			}
 			r.Sites++
 			r.Decide("path", fmt.Sprintf("(*M/marbl.Reader).ReadFrame: allocation #%d sized from the wire is bounded", n), guarded, "dominated by a comparison of the decoded length(s) with a constant bound that rejects larger values", "a buffer is sized by an unchecked length from the wire: a negative size on 32-bit platforms (panic) or an arbitrary allocation", mk.Pos())
 		}
@@ -424,6 +439,8 @@ func c19(r *Report) {
 	})
 
 	r.Guard("C19.R4", "writer and reader agree on the frame layout", func() {
+		// the headers that are framed are the message's own
+		headerMapKeysRule(r)
 		// every frame of a message carries the message's own type: whatever LogRequest
 		// sends is typed Request, whatever LogResponse sends (pseudo-headers, :api, headers,
 		// the body wrapper) is typed Response
